@@ -158,6 +158,16 @@ func (w *redisWorld) startProbes() {
 	if w.holdProbes != nil && w.holdProbes() {
 		return
 	}
+	// probes are the "after healing" phase: they never start while a node is down, silent or unreachable (a
+	// shrunk scenario may have lost the fault that heals it; such a scenario simply has no probe phase)
+	for _, n := range w.env.Cluster.Nodes {
+		if !n.Up || n.Silent {
+			return
+		}
+	}
+	if w.env.Net.AnyDown() {
+		return
+	}
 	settle := time.Duration(w.sc.SettleMs) * time.Millisecond
 	ref := w.lastFault
 	if w.probeStart.After(ref) {
